@@ -47,7 +47,7 @@ def gen(rng):
     steps = L['steps']
     home, uid, env = L['home'], L['uid'], dict(L['env'])
     ht = G.home_trash_of(env)
-    names = rng.choice([['foo'], ['foo'], ['foo', 'bar'], ['a b', 'foo'], ['x' * 200]])
+    names = rng.choice([['foo'], ['foo'], ['foo', 'bar'], ['a b', 'foo'], ['x' * 200], ['L' * 250], ['é' * 120 + 'z' * 8]])
     case = {'world': {'mounts': L['mounts'], 'steps': steps}, 'dirsalt': rng.randrange(1 << 30), 'mode': mode}
     state = rng.choice(['absent', 'absent', 'present', 'filled', 'filled', 'orphans'])
     if mode == 'crowded':
@@ -59,11 +59,14 @@ def gen(rng):
         for nm in names:
             short = nm[:200]
             k = rng.randint(0, 4)
-            for j in range(k + 1):
+            for j in range(k + 1 if len(nm.encode('utf-8')) <= 244 else 0):
                 tn = short if j == 0 else '%s_%d' % (short, j)
                 G.add_trashed(steps, ht, tn, TG.pct(home + '/old/' + nm), '2019-0%d-01T00:00:00' % (j + 1), rng.choice(['file', 'dir']), tag='old%d' % j)
             if state == 'orphans':
                 o = '%s_%d' % (short, k + 1)
+                if len(nm.encode('utf-8')) > 244:
+                    # after ENAMETOOLONG the trash name is the base name shortened by len('_1.trashinfo')
+                    o = nm[:len(nm) - len('_1.trashinfo')] + '_1'
                 kind = rng.choice(['file', 'dir', 'dangling', 'strayinfo'])
                 steps.append(['d', ht + '/files', 0o700])
                 steps.append(['d', ht + '/info', 0o700])
